@@ -224,7 +224,17 @@ func runCheck(repo, verif, prop string, thorough, verbose, writeEvidence, update
 	// lemmas (closed formulas)
 	for _, l := range eng.specs.lemmas {
 		if clauseHasProp(l, prop) {
-			run.obls = append(run.obls, eng.encodeLemma(l, nil))
+			var uses []string
+			if i := strings.Index(l.Label, ";"); i >= 0 {
+				f := strings.Fields(l.Label[i+1:])
+				if len(f) > 0 && f[0] == "uses" {
+					uses = f[1:]
+				}
+				cp := *l
+				cp.Label = strings.TrimSpace(l.Label[:i])
+				l = &cp
+			}
+			run.obls = append(run.obls, eng.encodeLemma(l, uses))
 		}
 	}
 	// structural scans
